@@ -100,6 +100,7 @@ func useTransaction(ctx context.Context, engine *Engine, lock bool, fn func(*Tra
 	if err != nil {
 		return nil, err
 	}
+	vhook("use.committed", engine, txn)
 
 	return res, nil
 }
